@@ -103,11 +103,21 @@ Definition path_allowed_by (p : list string) (pattern : string) : bool :=
 
 Inductive verdict := VOk (p : list string) | VRefused.
 
-(** validatePath: the cleaned components of an accepted path *)
+(** normalizePath: the path the ALLOW-LIST DECISION is made on —
+    filepath.Clean(norm.NFC.String(path)); NFC is the identity on the
+    (NFC-stable) byte strings of this model, nothing else is rewritten *)
+Definition normalize_for_check (path : string) : bool * list string := clean_text path.
+
+(** the path the OPERATIONS use: filepath.Clean(path) of the request as given
+    (requirePath, WriteUploadedFile, ReadFileForDownload) *)
+Definition used_path (path : string) : list string := snd (clean_text path).
+
+(** validatePath: the decision, made on the normalised path (whose
+    components are returned for reference) *)
 Definition validate_path (allowed : list string) (path : string) : verdict :=
   if contains_dangerous path then VRefused
   else
-    let '(abs, cs) := clean_text path in
+    let '(abs, cs) := normalize_for_check path in
     if negb abs then VRefused
     else if existsb (fun c => contains c "..") cs then VRefused
     else match allowed with
@@ -304,7 +314,8 @@ Definition exec (allowed : list string) (fs : fsys) (r : request) : outcome :=
   | RUpload path data =>
     match validate_path allowed path with
     | VRefused => refused fs
-    | VOk cs =>
+    | VOk _ =>
+      let cs := used_path path in      (* check on the normalised path, act on the request's own *)
       let '(fs1, e1) := mkdir_all fs (parent cs) in
       match e1 with
       | Some _ => failed fs1 (changed_paths fs fs1)
@@ -320,7 +331,8 @@ Definition exec (allowed : list string) (fs : fsys) (r : request) : outcome :=
   | RDownload path =>
     match validate_path allowed path with
     | VRefused => refused fs
-    | VOk cs =>
+    | VOk _ =>
+      let cs := used_path path in      (* check on the normalised path, act on the request's own *)
       (* ValidateDownloadMetadata works on the path as given (the kernel resolves
          its ".." components physically); ReadFileForDownload on the cleaned path *)
       let link_ok :=
@@ -349,7 +361,8 @@ Definition exec (allowed : list string) (fs : fsys) (r : request) : outcome :=
     if String.eqb path "" then refused fs else
     match validate_path allowed path with
     | VRefused => refused fs
-    | VOk cs =>
+    | VOk _ =>
+      let cs := used_path path in      (* check on the normalised path, act on the request's own *)
       match sys_stat fs cs, resolved fs cs true with
       | inl (Some DirO), Some q =>
         let names := children fs q in
@@ -365,7 +378,8 @@ Definition exec (allowed : list string) (fs : fsys) (r : request) : outcome :=
     if String.eqb path "" then refused fs else
     match validate_path allowed path with
     | VRefused => refused fs
-    | VOk cs =>
+    | VOk _ =>
+      let cs := used_path path in      (* check on the normalised path, act on the request's own *)
       match entry_text fs (base_name cs) cs true with
       | Some t => {| o_fs := fs; o_code := 0; o_payload := t; o_chmod := None;
                      o_touched := opt_list (resolved fs cs false) ++ opt_list (resolved fs cs true) |}
@@ -376,7 +390,8 @@ Definition exec (allowed : list string) (fs : fsys) (r : request) : outcome :=
     if String.eqb path "" then refused fs else
     match validate_path allowed path with
     | VRefused => refused fs
-    | VOk cs =>
+    | VOk _ =>
+      let cs := used_path path in      (* check on the normalised path, act on the request's own *)
       match parse_mode mode with
       | None => failed fs []
       | Some _ =>
@@ -394,7 +409,8 @@ Definition exec (allowed : list string) (fs : fsys) (r : request) : outcome :=
     if String.eqb path "" then refused fs else
     match validate_path allowed path with
     | VRefused => refused fs
-    | VOk cs =>
+    | VOk _ =>
+      let cs := used_path path in      (* check on the normalised path, act on the request's own *)
       match entry_text fs (base_name cs) cs false with
       | None => failed fs []
       | Some t =>
@@ -439,24 +455,27 @@ Definition request_path (r : request) : string :=
 
 (** ** Correspondence oracle *)
 Inductive fcase :=
-  FCase (tree : list inode_spec) (allowed : list string) (req : request)
+  FCase (fs0 : fsys) (allowed : list string) (req : request)
         (code : N) (payload : string) (chmodded : string) (escaped : bool) (final : option (list (string * oobj))).
 
 (** observed files carry their own path as leader (no hard links here) *)
 Definition observe_plain (fs : fsys) : list (string * oobj) :=
   map (fun so => match so with (s, OFile d _) => (s, OFile d s) | x => x end) (observe fs).
 
+(** every state change conses a binding onto [objs] or [store]: equal lengths = nothing happened *)
+Definition unchanged (a b : fsys) : bool :=
+  Nat.eqb (List.length (objs a)) (List.length (objs b)) && Nat.eqb (List.length (store a)) (List.length (store b)).
+
 Definition case_ok (c : fcase) : bool :=
   match c with
-  | FCase tree allowed req code payload chmodded escaped final =>
-    let fs0 := build_fs tree in
+  | FCase fs0 allowed req code payload chmodded escaped final =>
     let o := exec allowed fs0 req in
     let esc := N.eqb (o_code o) 0 &&
                negb (allowed_lex allowed (real_path fs0 (snd (clean_text (request_path req))))) in
     N.eqb (o_code o) code && String.eqb (o_payload o) payload &&
     String.eqb (match o_chmod o with Some q => join_path q | None => "" end) chmodded &&
     Bool.eqb esc escaped &&
-    match final with Some f => obs_eqb (observe_plain (o_fs o)) f | None => true end
+    match final with Some f => obs_eqb (observe_plain (o_fs o)) f | None => unchanged fs0 (o_fs o) end
   end.
 
 Fixpoint mismatches_from (i : N) (cs : list fcase) : list N :=
